@@ -17,7 +17,8 @@ fn near_miss(m: &Mut) -> bool {
         Mut::DelStmt(_) | Mut::DupStmt(_) | Mut::SwapStmt(_) | Mut::SetLibfunc(..) | Mut::SwapArgs(..) | Mut::SetArg(..)
             | Mut::DupArg(..) | Mut::SetResult(..) | Mut::Retarget(..) | Mut::DupBranch(..) | Mut::SetRet(..) | Mut::DelRet(..)
             | Mut::AddRet(..) | Mut::TypeInfoFlip(..) | Mut::TypeArg(..) | Mut::LibfuncArg(..) | Mut::FuncParamType(..) | Mut::FuncRetType(..)
-            | Mut::FuncEntry(..) | Mut::FuncDupParamId(..) | Mut::SwapType(_) | Mut::DupFunc(_)
+            | Mut::FuncEntry(..) | Mut::FuncDupParamId(..) | Mut::SwapType(_) | Mut::DupFunc(_) | Mut::FuncDelRet(..) | Mut::FuncAddRet(..)
+            | Mut::FuncDelParam(..) | Mut::DelArg(..) | Mut::DelResult(..) | Mut::AddResult(..) | Mut::DelBranch(..)
     )
 }
 
